@@ -752,7 +752,7 @@ class UTPM(Ring, RawAlgorithmsMixIn):
         rettan = self.clone()
         retsec = self.clone()
         self._tansec2(self.data, out = (rettan.data, retsec.data))
-        return rettan, retset
+        return rettan, retsec
 
     def tan(self):
         retval = self.zeros_like()
